@@ -262,6 +262,7 @@ func fnName(f *ssa.Function) string {
 
 // short renders a qualified name without the module prefix.
 func short(s string) string {
+	s = strings.ReplaceAll(s, M+"/", "")
 	s = strings.ReplaceAll(s, H+"/", "")
 	s = strings.ReplaceAll(s, "github.com/ava-labs/avalanchego/", "ago/")
 	return s
